@@ -9,5 +9,8 @@ for f in plain asan tsan plain-ssse3 plain-avx2 plain-avx512; do
 done
 # oracle caches used by the quick checks
 build/plain/texelsim dtm all3 >/dev/null
-(build/plain/texelsim dtm KQvKR >/dev/null &) ; build/plain/texelsim dtm KRBvK >/dev/null; wait
+for k in KQQvK KQRvK KQBvK KQNvK KRRvK KRBvK KRNvK KBBvK KBNvK KNNvK KQvKQ KQvKR KQvKB KQvKN KRvKR KRvKB KRvKN KBvKB KBvKN KNvKN; do
+  build/plain/texelsim dtm $k >/dev/null &
+done
+wait
 echo "setup done"
